@@ -1,4 +1,5 @@
 (* Extraction of the executable model and specification of C13 (ExtrOcamlBasic only). *)
-From MptV Require Import Base.Mem C13.QueueModel C13.QueueSpec C13.EncQueueModel C13.EncQueueSpec.
+From MptV Require Import Base.Mem C13.QueueModel C13.QueueSpec C13.EncQueueModel C13.EncQueueSpec
+  C13.DecQueueModel C13.DecQueueSpec.
 Require Import ExtrOcamlBasic.
-Extraction "c13_model.ml" qrun srun abs mkq qinvb erun esrun eabs mkeq.
+Extraction "c13_model.ml" qrun srun abs mkq qinvb erun esrun eabs mkeq drun dsrun dabs mkdq.
